@@ -357,14 +357,17 @@ class DurableContext(DurableContextProtocol):
             ),
             config=config,
         )
-        callback_id: str = executor.process()
-        result: Callback = Callback(
-            callback_id=callback_id,
-            operation_id=operation_id,
-            state=self.state,
-            serdes=config.serdes,
-        )
-        self.state.track_replay(operation_id=operation_id)
+        try:
+            callback_id: str = executor.process()
+            result: Callback = Callback(
+                callback_id=callback_id,
+                operation_id=operation_id,
+                state=self.state,
+                serdes=config.serdes,
+            )
+        finally:
+            # mark the operation visited on every exit (see track_replay)
+            self.state.track_replay(operation_id=operation_id)
         return result
 
     def invoke(
@@ -399,8 +402,10 @@ class DurableContext(DurableContextProtocol):
             ),
             config=config,
         )
-        result: R = executor.process()
-        self.state.track_replay(operation_id=operation_id)
+        try:
+            result: R = executor.process()
+        finally:
+            self.state.track_replay(operation_id=operation_id)
         return result
 
     def map(
@@ -433,24 +438,26 @@ class DurableContext(DurableContextProtocol):
                 operation_identifier=operation_identifier,
             )
 
-        result: BatchResult[R] = child_handler(
-            func=map_in_child_context,
-            state=self.state,
-            operation_identifier=operation_identifier,
-            config=ChildConfig(
-                sub_type=OperationSubType.MAP,
-                serdes=getattr(config, "serdes", None),
-                # the BatchResult of the whole map is what may need a summary
-                summary_generator=config.summary_generator
-                if config
-                else MapSummaryGenerator(),
-                # child_handler should only know the serdes of the parent serdes,
-                # the item serdes will be passed when we are actually executing
-                # the branch within its own child_handler.
-                item_serdes=None,
-            ),
-        )
-        self.state.track_replay(operation_id=operation_id)
+        try:
+            result: BatchResult[R] = child_handler(
+                func=map_in_child_context,
+                state=self.state,
+                operation_identifier=operation_identifier,
+                config=ChildConfig(
+                    sub_type=OperationSubType.MAP,
+                    serdes=getattr(config, "serdes", None),
+                    # the BatchResult of the whole map is what may need a summary
+                    summary_generator=config.summary_generator
+                    if config
+                    else MapSummaryGenerator(),
+                    # child_handler should only know the serdes of the parent serdes,
+                    # the item serdes will be passed when we are actually executing
+                    # the branch within its own child_handler.
+                    item_serdes=None,
+                ),
+            )
+        finally:
+            self.state.track_replay(operation_id=operation_id)
         return result
 
     def parallel(
@@ -480,24 +487,26 @@ class DurableContext(DurableContextProtocol):
                 operation_identifier=operation_identifier,
             )
 
-        result: BatchResult[T] = child_handler(
-            func=parallel_in_child_context,
-            state=self.state,
-            operation_identifier=operation_identifier,
-            config=ChildConfig(
-                sub_type=OperationSubType.PARALLEL,
-                serdes=getattr(config, "serdes", None),
-                # the BatchResult of the whole parallel is what may need a summary
-                summary_generator=config.summary_generator
-                if config
-                else ParallelSummaryGenerator(),
-                # child_handler should only know the serdes of the parent serdes,
-                # the item serdes will be passed when we are actually executing
-                # the branch within its own child_handler.
-                item_serdes=None,
-            ),
-        )
-        self.state.track_replay(operation_id=operation_id)
+        try:
+            result: BatchResult[T] = child_handler(
+                func=parallel_in_child_context,
+                state=self.state,
+                operation_identifier=operation_identifier,
+                config=ChildConfig(
+                    sub_type=OperationSubType.PARALLEL,
+                    serdes=getattr(config, "serdes", None),
+                    # the BatchResult of the whole parallel is what may need a summary
+                    summary_generator=config.summary_generator
+                    if config
+                    else ParallelSummaryGenerator(),
+                    # child_handler should only know the serdes of the parent serdes,
+                    # the item serdes will be passed when we are actually executing
+                    # the branch within its own child_handler.
+                    item_serdes=None,
+                ),
+            )
+        finally:
+            self.state.track_replay(operation_id=operation_id)
         return result
 
     def run_in_child_context(
@@ -525,15 +534,17 @@ class DurableContext(DurableContextProtocol):
         def callable_with_child_context():
             return func(self.create_child_context(parent_id=operation_id))
 
-        result: T = child_handler(
-            func=callable_with_child_context,
-            state=self.state,
-            operation_identifier=OperationIdentifier(
-                operation_id=operation_id, parent_id=self._parent_id, name=step_name
-            ),
-            config=config,
-        )
-        self.state.track_replay(operation_id=operation_id)
+        try:
+            result: T = child_handler(
+                func=callable_with_child_context,
+                state=self.state,
+                operation_identifier=OperationIdentifier(
+                    operation_id=operation_id, parent_id=self._parent_id, name=step_name
+                ),
+                config=config,
+            )
+        finally:
+            self.state.track_replay(operation_id=operation_id)
         return result
 
     def step(
@@ -558,8 +569,10 @@ class DurableContext(DurableContextProtocol):
             ),
             context_logger=self.logger,
         )
-        result: T = executor.process()
-        self.state.track_replay(operation_id=operation_id)
+        try:
+            result: T = executor.process()
+        finally:
+            self.state.track_replay(operation_id=operation_id)
         return result
 
     def wait(self, duration: Duration, name: str | None = None) -> None:
@@ -584,8 +597,10 @@ class DurableContext(DurableContextProtocol):
                 name=name,
             ),
         )
-        executor.process()
-        self.state.track_replay(operation_id=operation_id)
+        try:
+            executor.process()
+        finally:
+            self.state.track_replay(operation_id=operation_id)
 
     def wait_for_callback(
         self,
@@ -641,8 +656,10 @@ class DurableContext(DurableContextProtocol):
                 context_logger=self.logger,
             )
         )
-        result: T = executor.process()
-        self.state.track_replay(operation_id=operation_id)
+        try:
+            result: T = executor.process()
+        finally:
+            self.state.track_replay(operation_id=operation_id)
         return result
 
 
